@@ -24,6 +24,11 @@ CHECKS = {
    text="For every text up to length 4 (5 thorough) over a 1/2/4-byte alphabet and every pair of cursors of either alignment in [-len-2, len+2], annotate(TextSelector) and FindText::textselection must accept exactly the valid ranges and select exactly those codepoints; likewise for every parent range and relative cursor pair through AnnotationSelector offsets and textselection() on selections; reported offsets must be well-formed and re-resolve to the same range in all four modes; random nesting to depth 3 and extreme cursors. Exhaustive within these bounds.",
    note="Trusted: resolve_off() in harness/src/model.rs (C04 definition from the property statement). JSON/CSV serialised offsets are covered by C05/C15.",
    ref="5/C04"),
+ "C10": dict(
+   technique="runtime monitoring: exactly-once oracle over the event log (shadow model predicts which data handle every request must map to), dedup invariants on the live sets, index-vs-scan differential for every data search route, and an independent reference implementation of the documented DataOperator semantics on a value x operator cross product",
+   text="Seeded histories of data insertions through datasets, insert_data and annotations (with/without ids, repeated key/value pairs) and removals of data and keys; after every operation the returned handles are compared with the model's exactly-once prediction, the live sets are scanned for duplicate id-less (key,value) items and duplicate keys, and key.data()/find_data/test_data/data_by_value are compared with a full scan; DataValue::test is compared with a reference written from the doc comments over 25 values x ~100 operators incl. nested Not/And/Or. Held on what was observed.",
+   note="Trusted: ref_test() in harness/src/c10.rs; NaN excluded; Bool-vs-string, Int-vs-EqualsFloat, Float-vs-EqualsInt not judged (undocumented).",
+   ref="5/C10"),
  "C12": dict(
    technique="runtime oracle monitor: exhaustive position/byte sweeps against a naive char_indices table under 12 configurations (milestone interval x shrink_to_fit) before/after index population + differential replay of one seeded history under all 12 configurations (observations and search answers must be identical)",
    text="Every codepoint position 0..=len+2 and every byte offset 0..=bytes+2 of seeded texts over 1-4 byte codepoints (short texts with every sub-range, long texts of 90-260 codepoints) is converted through utf8byte / utf8byte_to_charpos / text_by_offset on the resource and on bound and unbound sub-selections, for milestone intervals 0,1,2,3,7,100 x shrink on/off, before and after annotations populate the position index; the same seeded op-history is replayed under all 12 configurations and the complete observation plus segmentation/find_text/related_text answers are compared. Held on what was swept.",
